@@ -38,6 +38,8 @@ class IntSeq(object):
 _REGISTRY = {}
 _TUPLE_SORTS = {}
 _BY_DECL = {}
+_NATIVE_MEMO = {}
+_MISS = object()
 _INST_CACHE = {}
 _INST_KEEP = []     # keeps the applications alive so that their ids are not reused
 UNFOLD_DEPTH = 2
@@ -349,8 +351,20 @@ class SpecFn(object):
     def __call__(self, *args):
         if len(args) != len(self.params):
             raise TypeError("spec %s takes %d arguments" % (self.name, len(self.params)))
-        if not any(sym.is_sym(a) or isinstance(a, SSet) for a in args):
-            return self.fn(*args)
+        if not any(isinstance(a, sym.SVal) or (isinstance(a, tuple) and len(a) < 16 and sym.is_sym(a)) for a in args):
+            # native evaluation (replay / adequacy), memoised: the recursive definitions are indexed by k
+            try:
+                key = (self.name,) + tuple(tuple(a) if isinstance(a, list) else a for a in args)
+                hit = _NATIVE_MEMO.get(key, _MISS)
+            except TypeError:
+                return self.fn(*args)
+            if hit is not _MISS:
+                return hit
+            r = self.fn(*args)
+            if len(_NATIVE_MEMO) > 200000:
+                _NATIVE_MEMO.clear()
+            _NATIVE_MEMO[key] = r
+            return r
         self.symbolic_calls = getattr(self, "symbolic_calls", 0) + 1
         return self._unpack(self.decl()(*self._zargs(args)))
 
